@@ -87,6 +87,19 @@ fn evaluator_case(run: &Run, case_seed: u64) {
     } else {
         run.observe("evaluator_cases", "plain");
     }
+    // a share of the cases minimises distance or duration instead of cost (G1's asymmetric matrices are metric, so the
+    // activity level estimates stay >= 0, the premise of the evaluator's pruning)
+    match rng.below(10) {
+        0 | 1 => {
+            gp.problem["objectives"] = json!([{"type": "minimize-unassigned"}, {"type": "minimize-tours"}, {"type": "minimize-distance"}]);
+            run.observe("evaluator_objectives", "minimize-distance");
+        }
+        2 | 3 => {
+            gp.problem["objectives"] = json!([{"type": "minimize-unassigned"}, {"type": "minimize-tours"}, {"type": "minimize-duration"}]);
+            run.observe("evaluator_objectives", "minimize-duration");
+        }
+        _ => run.observe("evaluator_objectives", "default (minimize-cost)"),
+    }
     let ReadOutcome::Ok(problem) = read_problem(&gp) else {
         run.inconclusive("generated problem rejected by reader");
         return;
